@@ -134,13 +134,13 @@ From PVGen Require Import EmitOps EmitDen Generated.EmittedOps Proofs.EmitOpsP P
    Some-wrapping, read op by type, countdown), the skip arm, the retention statements, the required checks, the late
    defaults, the construction -- is the one the template model prescribes (codegen_decode / codegen_decode_fields /
    codegen_enum_impl as modelled by Gen.gen_decode and GenKeep.gen_decode_keep) *)
-Theorem C08_emitted_decode_arms : forall n r ck em,
-  (ck = false /\ em = emitted_plain) \/ (ck = true /\ em = emitted_keep) ->
-  nth_error em n = Some r -> r <> ENone ->
-  (forall fs keep ia, lookup corpus_schema n = Some (DStruct fs keep ia) ->
-     exists nm e eu s su d, r = EStruct nm e eu s su d /\ norm_ds d = presc_dstruct corpus_schema ck fs keep ia) /\
-  (forall vs vo keep, lookup corpus_schema n = Some (DUnion vs vo keep) ->
-     exists nm e eu s su d, r = EUnion nm e eu s su d /\ norm_du d = presc_dunion corpus_schema ck vs vo keep).
+Theorem C08_emitted_decode_arms : forall n r ck em S,
+  (ck = false /\ em = emitted_plain /\ S = schema_plain) \/ (ck = true /\ em = emitted_keep /\ S = schema_keep) ->
+  nth_error em n = Some r ->
+  (forall fs keep ia, lookup S n = Some (DStruct fs keep ia) ->
+     exists nm e eu s su d, r = EStruct nm e eu s su d /\ norm_ds d = presc_dstruct S ck fs keep ia) /\
+  (forall vs vo keep, lookup S n = Some (DUnion vs vo keep) ->
+     exists nm e eu s su d, r = EUnion nm e eu s su d /\ norm_du d = presc_dunion S ck vs vo keep).
 Proof. exact emitted_decode_arms. Qed.
 Print Assumptions C08_emitted_decode_arms.
 
@@ -154,6 +154,6 @@ Print Assumptions C08_ops_denote_decode.
 
 (* the chain for the corpus of this run: the regenerated decoder rows of the plain build denote the model decoder *)
 Theorem C08_emitted_decode_is_model : forall p fuel t s,
-  den_dec (map norm_row emitted_plain) (dfl_of corpus_schema) p fuel (presc_rop t) s = gen_decode corpus_schema p fuel t s.
+  den_dec emitted_plain (dfl_of schema_plain) p fuel (presc_rop t) s = gen_decode schema_plain p fuel t s.
 Proof. exact emitted_decode_is_model. Qed.
 Print Assumptions C08_emitted_decode_is_model.
